@@ -585,3 +585,33 @@ func WriteEvidence(id string, ev map[string]any) {
 	b, _ := json.MarshalIndent(ev, "", " ")
 	os.WriteFile(filepath.Join(dir, id+".json"), append(b, '\n'), 0o644)
 }
+
+// RunCase executes one case of a property in a fresh copy of this binary (a cold process: no lazily
+// initialised package state has been touched yet) and returns the violations it reported. A worker
+// that died or hung is reported as a violation as well: the culprit is the case.
+func RunCase(prop, tier string, seed int64, caseID string, extraEnv []string) (viols []*Violation, diag string) {
+	self, _ := os.Executable()
+	r := runOnly(self, prop, tier, seed, caseID, extraEnv)
+	for _, v := range r.viols {
+		viols = append(viols, v.Viol)
+	}
+	if r.died || r.hung || !r.finished {
+		what := "died"
+		if r.hung {
+			what = "went silent"
+		}
+		st := r.stderr
+		site := "unknown"
+		if strings.Contains(st, "fatal error:") {
+			i := strings.Index(st, "fatal error:")
+			j := strings.IndexByte(st[i:], '\n')
+			if j < 0 {
+				j = len(st) - i
+			}
+			site = strings.TrimSpace(st[i : i+j])
+		}
+		viols = append(viols, &Violation{Key: "cold-process-" + strings.ReplaceAll(what, " ", "-") + ":" + site,
+			Msg: "fresh process running case " + caseID + " " + what, Detail: truncate(st, 3000)})
+	}
+	return viols, r.stderr
+}
